@@ -172,6 +172,9 @@ def main(run, tier):
     from .c14 import frame_obligations as _fo
     import contracts.frames as _cf
     _fo(run, _cf.C14, 'C14')
+    # the walk that forwards the fragments and the list rules (JoinAttr / ElisionJoinAttr for lists of any length): shared contracts
+    from . import printfwd
+    printfwd.add(run, tier)
     g = core.G()
     shapes = core.Shapes(g)
     pr = printing.Printing(g)
